@@ -60,6 +60,9 @@ class Engine:
         self.div_mode = cfg.get("div", "assume")
         self.nl_uf = bool(cfg.get("nl_uf", False))
         self.sqrt_mode = cfg.get("sqrt", "fork")
+        # standard floating-point error model: every arithmetic result is exact*(1+d), |d| <= 2^-52 (d fresh per operation)
+        self.fp_err = bool(cfg.get("fp_err", False))
+        self._nerr = 0
         self.timeout_ms = int(cfg.get("timeout_ms", 2000))
         self.fresh_timeout_ms = int(cfg.get("fresh_timeout_ms", 10000))
         self.seed = int(cfg.get("seed", 0))
@@ -79,6 +82,7 @@ class Engine:
         self.trail = []  # (taken, other_side_feasible)
         self.decided = {}
         self.rnd_cache = {}
+        self._nerr = 0
         self.rnd_results = set()
         self.uf_apps = {}  # id -> exact-semantics axiom of each mul/div UF application on this path
         self.vars = {}  # name -> z3 const, declaration order
@@ -346,6 +350,20 @@ def _fold(pyf, a, b):
     return SymNum(_from_py(pyf(pa, pb)))
 
 
+_U = Fraction(1, 2 ** 52)
+
+
+def _fp(t):
+    """floating-point error model (only when the engine asks for it): result = exact + e, |e| <= 2^-52 * |exact|"""
+    if not ENGINE.fp_err or _is_const(t) or t.sort().kind() == z3.Z3_INT_SORT:
+        return t
+    ENGINE._nerr += 1
+    e = z3.Real(f"fperr!{ENGINE._nerr}")
+    mag = z3.If(t >= 0, t, -t) * z3.RealVal(_U)
+    ENGINE.solver.add(e <= mag, -e <= mag)
+    return t + e
+
+
 def _mul(a, b):
     a, b = _coerce(a, b)
     if ENGINE.nl_uf and not _is_const(a) and not _is_const(b):
@@ -498,7 +516,7 @@ class SymNum(float):
             if r is not None:
                 return r
         a, b = _coerce(self.t, ot)
-        return SymNum(f(a, b))
+        return SymNum(_fp(f(a, b)))
 
     def _rbin(self, o, f, pyf=None):
         ot = lift(o)
@@ -509,7 +527,7 @@ class SymNum(float):
             if r is not None:
                 return r
         a, b = _coerce(ot, self.t)
-        return SymNum(f(a, b))
+        return SymNum(_fp(f(a, b)))
 
     def __add__(self, o):
         return self._bin(o, lambda a, b: a + b, operator.add)
@@ -567,7 +585,7 @@ class SymNum(float):
             r = _DIV(num, den)
             ENGINE.uf_apps.setdefault(r.get_id(), r * den == num)
             return SymNum(r)
-        return SymNum(num / den)
+        return SymNum(_fp(num / den))
 
     def __truediv__(self, o):
         ot = lift(o)
